@@ -260,6 +260,93 @@ def shrink(spec, E, still_fails):
     return spec
 
 
+# ---------------------------------------------------------------- "diagnostics, markers and apertures leave coordinates untouched"
+# Implementation-level oracle on track() (the transfer_map of these classes is the identity, checked above; this is about what
+# Marker / BPM / Screen / Aperture actually hand on).  Element alone: the 6 coordinates of every particle (mu and cov of a
+# ParameterBeam) of the outgoing beam are bit-identical to the incoming ones.  Inside Segment([Drift, element, Drift]): the
+# coordinates equal those of Segment([Drift, Drift]) (round-off: merged vs. sequential drifts).  Survival probabilities and
+# charges may change (apertures, blocking screens); coordinates must not.
+def untouched_specs():
+    S = [_spec("Marker"), _spec("BPM", is_active=False), _spec("BPM", is_active=True)]
+    for act in (False, True):
+        for blk in (False, True):
+            for mis in ([0.0, 0.0], [5e-4, -3e-4], [1e-3, 0.0]):
+                S.append(_spec("Screen", resolution=[6, 4], pixel_size=[1e-3, 1e-3], binning=1, misalignment=mis, is_blocking=blk, is_active=act))
+    for act in (False, True):
+        for shape in ("rectangular", "elliptical"):
+            for xm, ym in ((5e-4, 5e-4), (1.0, 2e-4), (float("inf"), float("inf"))):
+                S.append(_spec("Aperture", x_max=xm, y_max=ym, shape=shape, is_active=act))
+    return S
+
+
+def untouched_beams(rng):
+    B = [{"type": "particle", "particles": [[1e-3, 2e-4, -5e-4, 1e-4, 3e-4, 1e-2, 1.0], [-2e-4, 1e-4, 2e-4, -3e-4, -1e-4, -2e-2, 1.0],
+                                            [0.0, 0.0, 0.0, 0.0, 0.0, 0.0, 1.0]],
+          "energy": 2e7, "charges": [1e-12, 2e-12, 0.0], "survival": [1.0, 0.5, 1.0]},
+         realgen.gen_particle_beam(rng, n=5), realgen.gen_parameter_beam(rng), realgen.gen_parameter_beam(rng, energy=5e6, scale=3e-3)]
+    return B
+
+
+def _coords(beam):
+    import cheetah
+    if isinstance(beam, cheetah.ParticleBeam):
+        return {"particles[..., :6]": beam.particles[..., :6].detach().clone()}
+    return {"mu[:6]": beam._mu[..., :6].detach().clone(), "cov": beam._cov.detach().clone()}
+
+
+def untouched_check(spec, beam):
+    """list of failures ({mode, observable, ...}) of one (element, beam) pair; [] = coordinates untouched"""
+    import cheetah
+    fails = []
+    try:
+        el = realgen.build(spec)
+        b = realgen.build_beam(beam)
+        inc = _coords(b)
+        out = _coords(el.track(b))
+        for k, v in inc.items():
+            o = out.get(k)
+            if o is None or o.shape != v.shape or not torch.equal(o, v):
+                d = float((o - v).abs().max()) if (o is not None and o.shape == v.shape) else float("inf")
+                fails.append({"mode": "element alone", "observable": k, "max_abs_change": d,
+                              "what": "outgoing coordinates are not bit-identical to the incoming ones"})
+        d1 = {"cls": "Drift", "name": "d1", "kw": {"length": 0.3}}
+        d2 = {"cls": "Drift", "name": "d2", "kw": {"length": 0.7}}
+        seg = cheetah.Segment([realgen.build(d1), realgen.build(dict(spec, name="e")), realgen.build(d2)])
+        ref = cheetah.Segment([realgen.build(d1), realgen.build(d2)])
+        o, r = _coords(seg.track(realgen.build_beam(beam))), _coords(ref.track(realgen.build_beam(beam)))
+        for k, v in r.items():
+            w = o.get(k)
+            if w is None or w.shape != v.shape:
+                fails.append({"mode": "Segment([Drift(0.3), element, Drift(0.7)])", "observable": k, "what": "shape differs from the two drifts alone"})
+                continue
+            if v.dim() >= 2:     # per column (coordinate) scale: everything that is added up to form it
+                scale = v.abs().amax(dim=tuple(range(v.dim() - 1)), keepdim=True) if k != "cov" else v.abs().max()
+            else:
+                scale = v.abs().max()
+            tol = 1e-12 * (v.abs() + scale) + 1e-300
+            bad = (w - v).abs() > tol
+            if bool(bad.any()):
+                fails.append({"mode": "Segment([Drift(0.3), element, Drift(0.7)])", "observable": k, "max_abs_diff": float((w - v).abs().max()),
+                              "what": "coordinates differ from Segment([Drift(0.3), Drift(0.7)])"})
+    except Exception as ex:   # an exception of the implementation is an observation
+        fails.append({"mode": "exception", "what": f"{type(ex).__name__}: {ex}"})
+    return fails
+
+
+def oracle_untouched(run):
+    bad = []
+    beams = untouched_beams(run.rng)
+    for spec in untouched_specs():
+        for beam in beams:
+            run.add_case(["untouched", spec, beam], True)
+            run.count("untouched_" + spec["cls"] + "_" + beam["type"])
+            f = untouched_check(spec, beam)
+            if f:
+                bad.append({"kind": "untouched", "spec": spec, "beam": beam, "failures": f})
+    run.cov["untouched_cases"] = len(untouched_specs()) * len(beams)
+    return bad
+
+
 # ---------------------------------------------------------------- main
 def main(tier, replay=None):
     run = common.Run(PID, tier)
@@ -416,6 +503,9 @@ def main(tier, replay=None):
         broken.append((f"Coq model Optics/Maps.v vs transfer_map ({mm['kind']} goal)", errs.get(k, "")[-200:], pts[idx][0], pts[idx][1]))
 
     # ---- known findings: replay the stored inputs; classify oracle failures
+    t2 = time.time()
+    untouched_bad = oracle_untouched(run)
+    run.cov['timing_s']['untouched_oracle'] = round(time.time() - t2, 1)
     regressed = replay_known(run)
     new = []
     for s, E, bad in oracle_bad:
@@ -432,12 +522,21 @@ def main(tier, replay=None):
     run.cov["tested_only"] = ["agreement of the hand-written Coq model with transfer_map at the generated points (interval-checked, float64)",
                               "oracle: transfer_map vs matrix-exponential series of the Hamiltonian generator (1e-9 relative)",
                               "dipole pole-face (edge) maps are definition-level: the spec is the textbook hard-edge kick",
+                              "Marker / BPM / Screen / Aperture track() leaves coordinates untouched (element alone: bit-identical; inside "
+                              "Segment([Drift, element, Drift]): equal to the drifts alone within 1e-12), both beam types, active/inactive, "
+                              "blocking/non-blocking, aligned/misaligned screens, both aperture shapes",
                               "vectorised (batched) elements are not exercised here (C04)"]
 
     # ---- verdict
     def fails(sp, EE):
         b = oracle(sp, EE)
         return bool(b) and classify(sp, b) is None
+    if untouched_bad:
+        item = untouched_bad[0]
+        # prefer the simplest failing pair: element alone, fewest particles
+        run.violation(dict(item, relation="Marker / BPM / Screen / Aperture: track() leaves the 6 coordinates of every particle (mu, cov) untouched: "
+                                          "bit-identical for the element alone, equal to the two drifts alone inside Segment([Drift, element, Drift])",
+                           n_failing=len(untouched_bad), others=[[b["spec"]["cls"], b["spec"]["kw"], b["beam"]["type"]] for b in untouched_bad[1:5]]))
     if new:
         s, E, bad = new[0]
         s2 = shrink(s, E, fails)
@@ -516,6 +615,10 @@ def do_replay(run, path):
     if r.get("spec") is None:
         print("replay: this replay names a broken proof/correspondence, not an input:", r.get("broken"))
         return 1
+    if r.get("kind") == "untouched":
+        f = untouched_check(r["spec"], r["beam"])
+        print("replay:", "property holds on this input" if not f else f"property FAILS on this input: {json.dumps(f)[:1500]}")
+        return 1 if f else 0
     bad = oracle(r["spec"], r["energy"])
     if bad:
         print("replay: property FAILS on this input:", json.dumps([{"entry": [b[0], b[1]], "observed": b[2], "expected": b[3]} for b in bad[:12]]))
